@@ -10,11 +10,16 @@
 (*          of its rows in key order, <<>> when the table does not exist   *)
 (*   rt   - the table STORE.RANGES (&str -> Vec<(u64,u64)>): function from *)
 (*          the keys present to range lists                                *)
+(*   tabs - the set of tables that exist in the file                       *)
+(*   ident- whether LIBP2P.IDENTITY holds a key pair                       *)
 (* Layouts:  v1: stored ranges are the rows of hr, no STORE.RANGES;        *)
 (*           v2: rt[KHdr] stored, rt[KAcc] sampled ("accepted") ranges;    *)
 (*           v3: rt[KHdr], rt[KSmp], rt[KPrn].                             *)
 (* A database written by a newer version (4, 5) is modelled with the v3    *)
-(* layout - whatever it holds must be left alone.                          *)
+(* layout, or with only some of today's tables ("part": no hash index, no  *)
+(* metadata, no identity) or none but the version table ("min") - a newer  *)
+(* version may have renamed or dropped any of them; whatever the file      *)
+(* holds must be left alone: no table and no identity may be added.        *)
 (*                                                                         *)
 (* Open is the composition the code performs inside one write transaction: *)
 (* version check, then the stepwise migrations; a refused open aborts the  *)
@@ -53,26 +58,40 @@ PrunedOf(d)  == IF d.ver = 1 THEN {} ELSE SetOfRanges(Get(d.rt, KPrn))
 (* ---- databases written by the old code ---- *)
 \* `accPresent`: a v2 store that never sampled has no KAcc row (and no row at all if it never
 \* stored a header); one that did may hold an empty list
-MkDb(v, stored, sampled, prunedS, accPresent) ==
-    CASE v = 1 -> [ver |-> 1, hr |-> RunSeq(stored), rt |-> <<>>]
+TVer == "STORE.SCHEMA_VERSION"  THdr == "STORE.HEADERS"  THgt == "STORE.HEIGHTS"
+TMeta == "STORE.SAMPLING_METADATA"  TRng == "STORE.RANGES"  TOld == "STORE.HEIGHT_RANGES"
+TIdent == "LIBP2P.IDENTITY"
+AllTables == {TVer, THdr, THgt, TMeta, TRng, TIdent}         \* what RedbStore::new leaves behind
+Layouts == {"full", "part", "min"}
+
+MkDb(v, stored, sampled, prunedS, accPresent, lay) ==
+    CASE v = 1 -> [ver |-> 1, hr |-> RunSeq(stored), rt |-> <<>>,
+                   tabs |-> (AllTables \ {TRng}) \cup {TOld}, ident |-> TRUE]
       [] v = 2 -> [ver |-> 2, hr |-> <<>>,
                    rt |-> IF accPresent THEN (KHdr :> RunSeq(stored)) @@ (KAcc :> RunSeq(sampled))
                           ELSE IF stored = {} THEN <<>>            \* a store that was never written to
-                          ELSE (KHdr :> RunSeq(stored))]
+                          ELSE (KHdr :> RunSeq(stored)),
+                   tabs |-> AllTables, ident |-> TRUE]
+      [] lay = "min" -> [ver |-> v, hr |-> <<>>, rt |-> <<>>, tabs |-> {TVer}, ident |-> FALSE]
       [] OTHER -> [ver |-> v, hr |-> <<>>,
-                   rt |-> (KHdr :> RunSeq(stored)) @@ (KSmp :> RunSeq(sampled)) @@ (KPrn :> RunSeq(prunedS))]
+                   rt |-> (KHdr :> RunSeq(stored)) @@ (KSmp :> RunSeq(sampled)) @@ (KPrn :> RunSeq(prunedS)),
+                   tabs |-> IF lay = "part" THEN {TVer, THdr, TRng} ELSE AllTables,
+                   ident |-> lay = "full"]
 
 (* ---- the migrations (each a no-op from its target version on) ---- *)
 Migrate12(d) ==
     IF d.ver >= 2 THEN d
-    ELSE [ver |-> 2, hr |-> <<>>, rt |-> Put(d.rt, KHdr, d.hr)]      \* rows copied, old table deleted
+    ELSE [d EXCEPT !.ver = 2, !.hr = <<>>, !.rt = Put(d.rt, KHdr, d.hr),      \* rows copied, old table deleted
+                   !.tabs = (d.tabs \ {TOld}) \cup {TRng}]
 
 Migrate23(d) ==
     IF d.ver >= 3 THEN d
     ELSE [d EXCEPT !.ver = 3, !.rt = Del(Put(d.rt, KSmp, Get(d.rt, KAcc)), KAcc)]
 
 Refused(d) == d.ver > Current
-OpenDb(d)  == IF Refused(d) THEN d ELSE Migrate23(Migrate12(d))
+\* after the migrations the tables of the current layout and the node identity are created if missing
+Complete(d) == [d EXCEPT !.tabs = d.tabs \cup AllTables, !.ident = TRUE]
+OpenDb(d)  == IF Refused(d) THEN d ELSE Complete(Migrate23(Migrate12(d)))
 
 Open == /\ opens < 2
         /\ db' = OpenDb(db)
@@ -90,8 +109,8 @@ MigrationPreserves ==
         /\ res = "ok" /\ db.ver = Current
         /\ StoredOf(db) = StoredOf(db0) /\ SampledOf(db) = SampledOf(db0)
         /\ PrunedOf(db) = PrunedOf(db0)
-        /\ db.hr = <<>> /\ KAcc \notin DOMAIN db.rt        \* nothing of the old layouts is left
-\* a newer database is refused and not modified
+        /\ db.hr = <<>> /\ KAcc \notin DOMAIN db.rt /\ TOld \notin db.tabs   \* nothing of the old layouts is left
+\* a newer database is refused and not modified (db = db0 includes: no table, no identity added)
 NewerRefused == (opens > 0 /\ db0.ver > Current) => res = "refused" /\ db = db0
 \* opening again changes nothing
 Idempotent == [][opens = 1 => db' = db]_vars
